@@ -55,6 +55,8 @@ type StringV struct {
 	Arr Arr
 	Len *Term
 	Lit *string // when a literal
+	Itoa *Term     // strconv.Itoa(x): abstract decimal numeral of x
+	Join *JoinInfo // strings.Join(items, sep)
 }
 
 type StructV struct {
